@@ -16,9 +16,9 @@ SetOf(q) == {q[k] : k \in 1..Len(q)}
 Clause(c) ==
   LET R == PlanOf(c.doc)
       mg == {[path |-> g.id.path, chain |-> g.id.chain, parent |-> g.parent.chain] : g \in R.groups}
-      mt == {[path |-> t.path, gs |-> {g.chain : g \in t.gs}, keys |-> t.keys] : t \in R.tasks}
+      mt == {[path |-> t.path, gs |-> {g.chain : g \in t.gs}, keys |-> t.keys, soon |-> t.soon] : t \in R.tasks}
       rg == {[path |-> g.path, chain |-> g.chain, parent |-> g.parent] : g \in SetOf(c.groups)}
-      rt == {[path |-> t.path, gs |-> SetOf(t.gs), keys |-> SetOf(t.keys)] : t \in SetOf(c.tasks)}
+      rt == {[path |-> t.path, gs |-> SetOf(t.gs), keys |-> SetOf(t.keys), soon |-> t.soon] : t \in SetOf(c.tasks)}
       re == {[path |-> e.path, key |-> e.key, dus |-> SetOf(e.dus)] : e \in SetOf(c.execs)}
   IN IF \E k \in 1..Len(c.lost) : ~LossExplained(c.doc, c.lost[k].path, c.lost[k].key, SetOf(c.failed))
      THEN "leaf-lost-although-a-fragment-holding-it-succeeded"
